@@ -93,6 +93,9 @@ func c05Cases(seed int64, tier string) []core.Case {
 		cs = append(cs, core.MkCase("inodeedge-1", "inodeedge", seed+1, ext4Case{Cfg: Ext4Cfg{Size: 40 << 20, SPB: 2, BPG: 8192}, Mode: "inodeedge", Fsck: 500}),
 			core.MkCase("inodeedge-2", "inodeedge", seed+2, ext4Case{Cfg: Ext4Cfg{Size: 32 << 20, SPB: 8, Start: 1 << 20}, Mode: "inodeedge", Fsck: 500}))
 	}
+	for i, cfg := range []Ext4Cfg{{Size: 16 << 20}, {Size: 32 << 20, SPB: 8, Off: []string{"resize_inode"}, Start: 1 << 20}} {
+		cs = append(cs, core.MkCase(fmt.Sprintf("stalegap-%d", i), "stalegap", seed+int64(i), ext4Case{Cfg: cfg, Mode: "stalegap", Fsck: 40}))
+	}
 	nf := 3
 	if tier == "thorough" {
 		nf = 24
